@@ -12,6 +12,7 @@ from .core.repo import AnalysisError, Repo
 from .core.report import Check
 
 RULE_MODULES = {f"C{i:02d}": f"qv.rules.c{i:02d}" for i in range(1, 21)}
+LOCAL_EDIT = 4  # statements: edits up to this size inside a recorded function count as edits OF the matched expression (see withhold_unrecognised)
 
 
 def _enclosing_functions(repo: Repo, rel: str, line: int):
@@ -70,12 +71,49 @@ def withhold_unrecognised(check: Check, pid: str) -> None:
                     cands.append((f"{mname}:{q}", node))
             except ValueError:
                 pass
+        n_where = len(cands)
         for q in analysed:
             if q in table and not any(k == q for k, _ in cands):
                 try:
                     cands.append((q, repo.func(q)[1]))
                 except Exception:
                     continue
+        if os.environ.get("QV_GATE", "local") != "off" and not getattr(ob, "definite", False):
+            # Idiom-recognising rules are written against the recorded functions (qv/rules/pinned_shapes.json).  Their verdict is trusted while the
+            # function the verdict points at is recognisably that function: at most LOCAL_EDIT statements differ (a local edit — then the matched
+            # construct itself was changed).  In a function that has been RESTRUCTURED (helper extracted, branches merged, loop vectorised, …) a
+            # mismatch only shows that the code is written differently; it is reported as "not recognised" (exit 2), never as a violation.  Verdicts
+            # of the semantic analyses (recorded with definite=True: kind clashes, path properties, normal-form identities, model agreement) are exempt.
+            from .core.alpha import edit_distance, pinned_table, statement_digests
+            enclosing = [(k, n) for k, n in cands[:n_where]]
+            far = []
+            for key, node in enclosing:
+                e = pinned_table().get(key)
+                if e is None and "." in key.split(":")[-1]:
+                    # a closure / nested function: judged by the recorded function that contains it
+                    pk = key.rsplit(".", 1)[0]
+                    while pk not in pinned_table() and "." in pk.split(":")[-1]:
+                        pk = pk.rsplit(".", 1)[0]
+                    pe = pinned_table().get(pk)
+                    if pe is not None:
+                        try:
+                            e, node = pe, repo.func(pk)[1]
+                        except Exception:
+                            e = None
+                d = edit_distance(e["stmts"], statement_digests(node)) if e and "stmts" in e else None
+                if d is None or d > LOCAL_EDIT:
+                    far.append((key, d))
+            if far:
+                from .core.keyed import textual_matches
+                texts = textual_matches(list(ob.src))
+                k, d = far[0]
+                ob.verdict = "withheld"
+                check.error(f"{ob.rule} not recognised: {k.split(':')[-1]} "
+                            + (f"differs from the recorded function in {d} statements" if d is not None else "is not a recorded function")
+                            + " (restructured, not a local edit)"
+                            + (f"; the rule matches expression text such as {texts[0][:50]!r}" if texts else "")
+                            + f" — a different way of writing the code is not evidence of different behaviour; withheld (not a verdict): {ob.construct}")
+                continue
         for key, node in cands:
             keyed = table.get(key)
             if not keyed:
